@@ -1,5 +1,6 @@
 import Rie.Proofs.Sys
 import Rie.Props.C05
+import Rie.Proofs.SysProcs
 
 /-!
 # C07 — No client behaviour can wedge or crash the emulator
@@ -75,6 +76,32 @@ theorem C07_reset_cancels_first (s : State) (reason : String) (from_ : Nat) (h :
     platform-generated ones; the runtime-posted ones are C14_exact / C01.) -/
 theorem C07_platform_bodies (s : State) (errType : String) :
     failureBody s errType = s.cached.getD s!"errjson:{errType}" := rfl
+
+/-- **The events watcher never panics — every reachable state.** `Reach` contains every state the
+    emulator passes through from any initial configuration: after each op (any op, timers included) and
+    after each internal move under any scheduler variant. In every such state, if a termination event
+    waits to be handled then it names a process the orchestrator knows, whose exit channel exists and
+    which is no longer alive; handling it raises no crash. (`watchEvents` has two `log.Panic` branches —
+    unknown process, missing exit channel — this says both are unreachable. It relies on the
+    supervisor emitting one event per process it started, which is C19.) Invariant `Rie.Sys.PInv`,
+    `Rie/Proofs/SysProcs.lean`. The other modelled panic site (`trySendDefaultErrorResponse` without a
+    reservation) is not covered by a whole-run theorem. -/
+theorem C07_watcher_never_panics (s : State) (hr : Reach s) (full : String) (zero : Bool) (rest : List (String × Bool))
+    (hq : s.exitQueue = (full, zero) :: rest) :
+    (∃ p, procByFull s full = some p ∧ p.chanCreated = true ∧ p.alive = false) ∧
+    (watchOne { s with exitQueue := rest } full zero).crashed = s.crashed := by
+  have i := pinv_reach hr
+  have hx := i.x (full, zero) (by rw [hq]; exact List.mem_cons_self)
+  have i' : PInv { s with exitQueue := rest } :=
+    ⟨fun e he => i.x e (by rw [hq]; exact List.mem_cons_of_mem _ he), i.y, i.z⟩
+  exact ⟨hx, (pinv_watchOne _ full zero i' hx).2⟩
+
+-- non-vacuity: the runtime exits while the caller waits: the op leaves its exit event queued (a reachable
+-- state with a non-empty exit queue), the watcher's move handles it without a crash
+example :
+    let s1 := step 0 (step 0 {} (.invoke 0 5 "h")) .rtNext
+    let s2 := applyOp { s1 with out := [] } (.exit "runtime" "code1" false)
+    s2.exitQueue = [("runtime-1", false)] ∧ ((progress 0 s2).map (·.crashed)) = some false := by decide
 
 -- non-vacuity: a runtime that sends nonsense in every state, then dies; the emulator is not crashed
 example :
